@@ -69,6 +69,8 @@ def replay_session(ctx, data, relevant):
     fails = v.failing(relevant)
     for t, l, asp in v.fails:
         print('step %d: %s  (%s)' % (l, asp, describe(trace, l)))
+        print('   expected by the specification:', json.dumps(v.expect.get((t, l)))[:1500])
+        print('   observed items:', json.dumps(trace['events'][l - 1]['obs']['items'])[:1500])
     if 'escaped' in trace:
         print('escaped exception:\n' + trace['escaped'])
     print('trace file kept at', v.file)
